@@ -45,20 +45,6 @@ Fixpoint rename_with (l : list Z) (p : prog) : prog * list Z :=
 
 Definition rename_prog (l : list Z) (p : prog) : prog := fst (rename_with l p).
 
-(* every name that occurs in p *)
-Fixpoint allnames (p : prog) : list Z :=
-  match p with
-  | Done => []
-  | Ref x k | PRef x k | Decl _ x k => x :: allnames k
-  | Block b k => allnames b ++ allnames k
-  | Func nm ps b k => (match nm with Some f => [f] | None => [] end) ++ allnames ps ++ allnames b ++ allnames k
-  | Arrow ps b k => allnames ps ++ allnames b ++ allnames k
-  | ArrowId x b k => x :: allnames b ++ allnames k
-  | Paren h k => allnames h ++ allnames k
-  | For h b k | Catch h b k => allnames h ++ allnames b ++ allnames k
-  | Class nm ms k => (match nm with Some c => [c] | None => [] end) ++ allnames ms ++ allnames k
-  end.
-
 Section Renaming.
   (* the new name of each declaration *)
   Variable f : nat -> bool -> Z -> Z.
